@@ -6,7 +6,7 @@
 (* <<property id, predicate name>>.                                         *)
 (***************************************************************************)
 EXTENDS Naturals, Integers, Sequences, FiniteSets, SequencesExt,
-        FiniteSetsExt, Functions, TLC, Text, Vlq, SMap, Sem, Attr, Compose
+        FiniteSetsExt, Functions, TLC, Text, Vlq, SMap, Sem, Attr, Compose, Rope
 
 NREG == 16
 EmptyHeap == [i \in 0..(NREG - 1) |-> Nil]
@@ -515,6 +515,98 @@ C20Holds(c, r, st) ==
                 => st.obs[k].hex = r.out.local
 
 -----------------------------------------------------------------------------
+(* C15: the JSON form of a SourceMap.  A value is [m, sources, contents,    *)
+(* names, root, file, dbg]; a parsed document has every field as a 0/1      *)
+(* element sequence (absent / present).                                     *)
+AllEmpty(ss) == \A i \in 1..Len(ss) : ss[i] = <<>>
+SameMap(a, b) ==
+  /\ a.m = b.m /\ a.sources = b.sources /\ a.contents = b.contents
+  /\ a.names = b.names /\ a.root = b.root /\ a.file = b.file /\ a.dbg = b.dbg
+
+(* what a document built from fields [[key, kind, value]...] must read as   *)
+FieldIdx(fields, key) ==
+  LET c == {i \in 1..Len(fields) : fields[i][1] = key} IN IF c = {} THEN 0 ELSE Min(c)
+(* entries of a "strs" field are <<>> (JSON null) or <<string>>              *)
+StrsOf(fields, key) ==
+  LET i == FieldIdx(fields, key)
+  IN IF i = 0 \/ fields[i][2] # "strs" THEN <<>>
+     ELSE [j \in 1..Len(fields[i][3]) |->
+             IF fields[i][3][j] = <<>> THEN <<>> ELSE fields[i][3][j][1]]
+OptStrOf(fields, key) ==
+  LET i == FieldIdx(fields, key)
+  IN IF i = 0 \/ fields[i][2] # "str" THEN <<>> ELSE <<fields[i][3]>>
+HasMappings(fields) ==
+  LET i == FieldIdx(fields, "mappings") IN i # 0 /\ fields[i][2] = "str"
+ValOfDoc(fields) ==
+  [m |-> fields[FieldIdx(fields, "mappings")][3],
+   sources |-> StrsOf(fields, "sources"), contents |-> StrsOf(fields, "sourcesContent"),
+   names |-> StrsOf(fields, "names"), root |-> OptStrOf(fields, "sourceRoot"),
+   file |-> OptStrOf(fields, "file"), dbg |-> OptStrOf(fields, "debugId")]
+
+C15Holds(c, r) ==
+  CASE c[2] = "serialises" -> r.out.res = "ok"
+    [] c[2] = "writer_equals_json" -> r.out.writer_ok /\ r.out.writer = r.out.json
+    [] c[2] = "document_matches_value" ->
+         /\ r.out.doc # <<>>
+         /\ LET d == r.out.doc[1]
+                v == r.map
+            IN /\ d.is_object /\ d.extra = 0
+               /\ d.version = <<3>>
+               /\ d.mappings = <<v.m>>
+               /\ d.sources = <<v.sources>>
+               /\ d.names = <<v.names>>
+               /\ d.sourcesContent = IF AllEmpty(v.contents) THEN <<>> ELSE <<v.contents>>
+               /\ d.file = v.file /\ d.sourceRoot = v.root /\ d.debugId = v.dbg
+    [] c[2] = "round_trip" ->
+         LET v == [r.map EXCEPT !.contents = IF AllEmpty(@) THEN <<>> ELSE @]
+             ok(b) == b # <<>> /\ SameMap(b[1], v)
+         IN ok(r.out.back_json) /\ ok(r.out.back_slice) /\ ok(r.out.back_reader)
+    [] c[2] = "entry_points_agree" ->
+         r.out.json = r.out.slice /\ r.out.json = r.out.reader
+    [] c[2] = "document_reads_as_value" ->
+         IF HasMappings(r.fields)
+           THEN r.out.json.res = "ok" /\ SameMap(r.out.json.map[1], ValOfDoc(r.fields))
+           ELSE r.out.json.res = "err"
+
+-----------------------------------------------------------------------------
+(* C16: the rope answers like the flat string                               *)
+UnaryOK(o, t) ==
+  o.panics = <<>> =>
+    /\ o.len = Len(t)
+    /\ o.is_empty = (t = <<>>)
+    /\ o.to_string = t /\ o.to_bytes = t
+    /\ o.bytes = t /\ o.byte_past_end = -1
+    /\ o.char_indices = CharIndices(t)
+    /\ o.lines = RopeLines(t)
+    /\ \A i \in 1..Len(o.ends_with) : o.ends_with[i][2] = EndsWithChar(t, o.ends_with[i][1])
+
+BinaryOK(o, x, y) ==
+  o.panics = <<>> =>
+    /\ o.starts_with = IsPrefix(y, x)
+    /\ o.eq = (x = y) /\ o.eq_str = (x = y) /\ o.eq_ref = (x = y)
+
+C16Holds(c, r) ==
+  LET x == FlatOf(r.a, r.pieces)
+      y == FlatOf(r.b, r.pieces)
+  IN
+  CASE c[2] = "definedness_agrees" ->
+         r.out.valid = (x # Invalid /\ y # Invalid)
+    [] c[2] = "no_panic" ->
+         /\ r.out.a.panics = <<>> /\ r.out.b.panics = <<>>
+         /\ r.out.ab.panics = <<>> /\ r.out.ba.panics = <<>>
+         /\ r.out.slices.panics = <<>>
+    [] c[2] = "unary_observers" -> UnaryOK(r.out.a, x) /\ UnaryOK(r.out.b, y)
+    [] c[2] = "binary_observers" -> BinaryOK(r.out.ab, x, y) /\ BinaryOK(r.out.ba, y, x)
+    [] c[2] = "byte_slices" ->
+         r.out.slices.panics = <<>> =>
+           /\ Len(r.out.slices.all) = (Len(x) + 2) * (Len(x) + 2)
+           /\ \A i \in 1..Len(r.out.slices.all) :
+                LET s == r.out.slices.all[i]
+                IN IF SliceOK(x, s[1], s[2])
+                     THEN s[3] = <<SubSeq(x, s[1] + 1, s[2])>>
+                     ELSE s[3] = <<>>
+
+-----------------------------------------------------------------------------
 (* which predicates apply to a record                                       *)
 TreeOf(r, st) == st.heap[r.r]
 
@@ -585,6 +677,20 @@ Checks(r, st) ==
                       THEN {<<"C04", "no_map_means_no_original">>} ELSE {})
       [] r.op = "law" -> LawChecks(r, st)
       [] r.op = "hash_tree" -> {<<"C20", "hash_reproducible">>}
+      [] r.op = "rope_obs" ->
+           {<<"C16", "definedness_agrees">>} \cup
+           (IF r.out.valid /\ FlatOf(r.a, r.pieces) # Invalid /\ FlatOf(r.b, r.pieces) # Invalid
+              THEN {<<"C16", "no_panic">>, <<"C16", "unary_observers">>,
+                    <<"C16", "binary_observers">>, <<"C16", "byte_slices">>}
+              ELSE {})
+      [] r.op = "to_json" ->
+           {<<"C15", "serialises">>} \cup
+           (IF r.out.res = "ok"
+              THEN {<<"C15", "writer_equals_json">>, <<"C15", "document_matches_value">>,
+                    <<"C15", "round_trip">>}
+              ELSE {})
+      [] r.op = "parse_doc" ->
+           {<<"C15", "entry_points_agree">>, <<"C15", "document_reads_as_value">>}
       [] r.op = "codec" ->
            IF CodecDomain(SegsOf(r.segs))
              THEN {<<"C12", "decode_matches_format">>, <<"C12", "roundtrip_resolves_same">>,
@@ -685,6 +791,8 @@ Holds(c, r, st) ==
     [] c[1] \in {"C13", "C06", "C08"} /\ r.op = "law" -> LawHolds(c, r, st)
     [] c[1] = "C04" -> C04Holds(c, r, t)
     [] c[1] = "C10" -> C10Holds(c, r, st)
+    [] c[1] = "C16" -> C16Holds(c, r)
+    [] c[1] = "C15" -> C15Holds(c, r)
     [] c[1] = "C14" -> C14Holds(c, r, st)
     [] c[1] = "C20" -> C20Holds(c, r, st)
     [] c[1] = "C12" -> C12Holds(c, r)
